@@ -91,7 +91,8 @@ func buildWorker(race bool) (string, error) {
 	args := []string{"test", "-c", "-tags", "verif", "-o", out, "./sim"}
 	if race {
 		out = filepath.Join(root, "build", "worker-race.test")
-		args = []string{"test", "-c", "-race", "-tags", "verif", "-o", out, "./sim"}
+		// -checklinkname=0: the race build binds sync.poolCleanup (see sim/race_on.go)
+		args = []string{"test", "-c", "-race", "-tags", "verif", "-ldflags=-checklinkname=0", "-o", out, "./sim"}
 	}
 	os.MkdirAll(filepath.Join(root, "build"), 0o755)
 	// go.sum of the module under test is reused so that nothing is fetched
@@ -412,6 +413,12 @@ func cmdCheck(args []string) int {
 	nw := *workers
 	if nw <= 0 {
 		nw = runtime.NumCPU()
+		if pc.race && nw > 4 {
+			// race-build episodes are bound by page-fault traffic of the race
+			// runtime (one ThreadState per goroutine), which does not scale across
+			// processes in this VM: more than 4 workers only adds contention
+			nw = 4
+		}
 	}
 	fmt.Printf("check %s tier=%s base-seed=%d episodes=%d workers=%d race=%v\n", id, *tier, base, n, nw, pc.race)
 
